@@ -619,8 +619,9 @@ class Node:
             if deep is None:
                 deep = True
             topnodes = child._root.children
-            if isinstance(before, (int, Node)) or before is True:
-                topnodes.reverse()
+            if isinstance(before, int):
+                # Inserting one by one at a fixed index reverses the order
+                topnodes = topnodes[::-1]  # (do not modify the source tree)
             for n in topnodes:
                 self.add_child(n, before=before, deep=deep)
             return n  # need to return a node
